@@ -244,11 +244,21 @@ type site struct {
 	gasBefore uint64
 	cost      uint64
 	pre       *snapshot
+	writes0   uint64
 }
 
 type frameInfo struct {
-	c       *evm.Contract
-	lastGas uint64
+	c        *evm.Contract
+	lastGas  uint64 // gas before the frame's current instruction
+	lastCost uint64 // what that instruction is charged (for a CALL*: including the gas handed to the callee)
+	lastOp   evm.OpCode
+	memLen   int    // size of the frame's memory, which already includes the expansion of the current instruction
+	memDelta uint64 // gas the current instruction pays for that expansion (consumed, never handed to a callee)
+}
+
+func memGas(bytes int) uint64 {
+	w := uint64(bytes+31) / 32
+	return w*3 + w*w/512
 }
 
 type traceStep struct {
@@ -257,6 +267,8 @@ type traceStep struct {
 	Op    string `json:"op"`
 	Gas   uint64 `json:"gas"`
 	Err   string `json:"err,omitempty"`
+	op    evm.OpCode
+	err   error
 }
 
 type finding struct {
@@ -286,6 +298,7 @@ type monitor struct {
 	probeDepth      int // depth of the running decimals() probe frame, 0 = none
 	probes          int
 	probesUncharged int
+	probesNested    int
 	probeGas0       uint64 // gas the running probe frame started with
 	probeCur        uint64 // gas the running probe frame has consumed so far
 	uncharged       uint64 // gas consumed by finished probe frames (nobody is charged for it)
@@ -293,12 +306,14 @@ type monitor struct {
 	snapshots      int
 	snapshotBudget int
 
-	maxDepth       int
-	framesFailed   int
-	framesFailedCk int
-	framesOK       int
-	framesSkipped  int
-	ops            [256]uint32
+	maxDepth                                       int
+	writes                                         uint64 // state-changing instructions executed so far
+	failedAfterWrites, failedWithValue, valueCalls int
+	framesFailed                                   int
+	framesFailedCk                                 int
+	framesOK                                       int
+	framesSkipped                                  int
+	ops                                            [256]uint32
 
 	started, ended bool
 	endGasUsed     uint64
@@ -318,6 +333,10 @@ func newMonitor(st *state.StateDB, w *world, heavy bool) *monitor {
 		} else {
 			m.stepLimit = 100 * w.Gas
 		}
+	}
+	if m.stepLimit == 10000000 {
+		// small gas: nothing legitimate comes near 1e7 steps, so the harness cap must not hide the step oracle
+		m.workCap = 1 << 62
 	}
 	m.frames = make([]frameInfo, 64)
 	if heavy {
@@ -339,7 +358,12 @@ func (m *monitor) tailSteps() []traceStep {
 	}
 	out := make([]traceStep, 0, n)
 	for i := m.tailN - n; i < m.tailN; i++ {
-		out = append(out, m.tail[i%len(m.tail)])
+		t := m.tail[i%len(m.tail)]
+		t.Op = t.op.String()
+		if t.err != nil {
+			t.Err = t.err.Error()
+		}
+		out = append(out, t)
 	}
 	return out
 }
@@ -390,11 +414,7 @@ func (m *monitor) step(env *evm.EVM, pc uint64, op evm.OpCode, gas, cost uint64,
 		m.mix(t.Uint64() ^ uint64(t.BitLen())<<56 ^ uint64(len(sd))<<44)
 	}
 	ts := &m.tail[m.tailN%len(m.tail)]
-	ts.Depth, ts.PC, ts.Op, ts.Gas, ts.Err = depth, pc, "", gas, ""
-	ts.Op = op.String()
-	if err != nil {
-		ts.Err = err.Error()
-	}
+	ts.Depth, ts.PC, ts.op, ts.Gas, ts.err = depth, pc, op, gas, err
 	m.tailN++
 
 	if depth > m.maxDepth {
@@ -413,27 +433,55 @@ func (m *monitor) step(env *evm.EVM, pc uint64, op evm.OpCode, gas, cost uint64,
 		m.probeCur = 0
 	}
 	if newFrame {
-		prevGas, hadPrev := fr.lastGas, fr.c != nil && depth <= m.lastDepth // a frame at this depth has just ended
+		// how much gas could legitimately have been handed to this frame
+		var ref uint64
+		haveRef := false
+		if depth <= m.lastDepth && fr.c != nil {
+			// it follows a frame of the same depth without any instruction of a caller in between:
+			// a call made by the EVM itself in that frame's epilogue
+			ref, haveRef = fr.lastGas, true
+		} else if depth >= 2 && m.frames[depth-1].c != nil {
+			// entered from the caller's last instruction: a CALL* hands over at most what it is charged
+			// (+ the stipend), a CREATE* at most what the creator has left after the charge
+			cf := &m.frames[depth-1]
+			switch cf.lastOp {
+			case evm.CREATE, evm.CREATE2:
+				if cf.lastGas > cf.lastCost {
+					ref = cf.lastGas - cf.lastCost
+				}
+			default:
+				ref = cf.lastCost + 2300
+			}
+			haveRef = true
+		}
 		fr.c = contract
 		fr.lastGas = gas
+		fr.memLen = 0
 		m.nframes++
 		m.work += 40 // a frame costs the harness far more than a step
-		if m.probeDepth == 0 && hadPrev && contract.CallerAddress == (common.Address{}) && bytes.Equal(contract.Input, rateData) {
-			// the chain's own decimals() static call in the epilogue of a frame that executed ISSUE
-			// (GetUTXOChangeRate): its caller is the zero address and no instruction of a caller precedes it
+		isProbe := contract.CallerAddress == (common.Address{}) && bytes.Equal(contract.Input, rateData)
+		if isProbe {
+			// the chain's own decimals() static call in the epilogue of the first frame that ends after an
+			// ISSUE (GetUTXOChangeRate); its caller is the zero address
 			m.probes++
-			if gas > prevGas {
-				// it starts with more gas than the issuing frame had left, so that frame is not paying for it
+		}
+		if haveRef && gas > ref && isProbe && m.probeDepth != 0 && depth > m.probeDepth {
+			// an uncharged probe inside an uncharged probe (DelegateCall/Call/CallCode/create do not look at the
+			// value they take from evm.Issued): it brings its own fresh gas; account for the outer one so far
+			m.uncharged += m.probeCur
+			m.probeCur = 0
+			m.probeDepth = depth
+			m.probeGas0 = gas
+			m.probesUncharged++
+			m.probesNested++
+		} else if haveRef && gas > ref && m.probeDepth == 0 {
+			if isProbe {
+				// it starts with more gas than the frame it is made from had left: nobody pays for it
 				m.probeDepth = depth
 				m.probeGas0 = gas
 				m.probesUncharged++
-			}
-		}
-		if n := len(m.pending); n > 0 && m.pending[n-1].depth == depth-1 && m.probeDepth == 0 {
-			s := m.pending[n-1]
-			// the callee cannot start with more gas than its caller had (+ the call stipend)
-			if gas > s.gasBefore+2300 {
-				m.find("gas/callee-started-with-more-gas-than-caller-had", fmt.Sprintf("%v at depth %d pc %d: caller had %d gas, callee starts with %d", s.op, s.depth, s.pc, s.gasBefore, gas), nil)
+			} else {
+				m.find("gas/frame-started-with-more-gas-than-it-was-handed", fmt.Sprintf("frame at depth %d starts with %d gas, the instruction or frame it was entered from could hand over at most %d", depth, gas, ref), nil)
 			}
 		}
 	} else {
@@ -443,12 +491,32 @@ func (m *monitor) step(env *evm.EVM, pc uint64, op evm.OpCode, gas, cost uint64,
 		fr.lastGas = gas
 	}
 	m.lastDepth = depth
+	fr.lastCost, fr.lastOp = cost, op
+	fr.memDelta = 0
+	if n := memory.Len(); n > fr.memLen {
+		fr.memDelta = memGas(n) - memGas(fr.memLen)
+		fr.memLen = n
+	}
 	if m.probeDepth != 0 {
 		if !fault {
 			m.probeSteps++
 		}
-		if depth == m.probeDepth && gas <= m.probeGas0 {
-			m.probeCur = m.probeGas0 - gas
+		// gas the probe has consumed so far: what it started with minus what the frames it consists of still
+		// hold (suspended callers: gas before their call instruction minus its full charge; the running frame:
+		// gas before its current instruction, an over-estimate) - a lower bound of what was consumed
+		if d := depth - m.probeDepth; d <= 8 || m.steps&255 == 0 {
+			held := m.frames[depth].lastGas
+			if held >= fr.memDelta && err == nil {
+				held -= fr.memDelta
+			}
+			for k := m.probeDepth; k < depth; k++ {
+				if f := &m.frames[k]; f.lastGas > f.lastCost {
+					held += f.lastGas - f.lastCost
+				}
+			}
+			if held <= m.probeGas0 && m.probeGas0-held > m.probeCur {
+				m.probeCur = m.probeGas0 - held
+			}
 		}
 		if m.uncharged+m.probeCur > m.gas {
 			// the uncharged work alone already exceeds everything the execution was given
@@ -497,6 +565,10 @@ func (m *monitor) step(env *evm.EVM, pc uint64, op evm.OpCode, gas, cost uint64,
 	sd := stack.Data()
 	top := func(i int) *big.Int { return sd[len(sd)-1-i] }
 	switch op {
+	case evm.SSTORE, evm.SELFDESTRUCT, evm.ISSUE, evm.TRANSFERTOKEN, evm.LOG0, evm.LOG1, evm.LOG2, evm.LOG3, evm.LOG4:
+		m.writes++
+	}
+	switch op {
 	case evm.SSTORE:
 		m.set.addSlot(common.BigToHash(top(0)))
 		m.set.addAddr(contract.Address())
@@ -536,6 +608,14 @@ func (m *monitor) step(env *evm.EVM, pc uint64, op evm.OpCode, gas, cost uint64,
 			m.set.addToken(s.target)
 		}
 		m.set.addAddr(s.target)
+		if s.value != "" && s.value != "0" {
+			m.valueCalls++
+			m.writes++
+		}
+		if op == evm.CREATE || op == evm.CREATE2 {
+			m.writes++
+		}
+		s.writes0 = m.writes
 		if m.snapshots < m.snapshotBudget {
 			m.snapshots++
 			s.pre = takeSnapshot(m.st, m.set)
@@ -560,6 +640,12 @@ func (m *monitor) resolve(s *site, nextOp evm.OpCode, gasNow uint64, stack *evm.
 		return
 	}
 	m.framesFailedCk++
+	if m.writes > s.writes0 || (s.value != "" && s.value != "0") || s.op == evm.CREATE || s.op == evm.CREATE2 {
+		m.failedAfterWrites++ // something had to be undone (or must not have happened)
+	}
+	if s.value != "" && s.value != "0" {
+		m.failedWithValue++
+	}
 	m.snapshots++
 	post := takeSnapshot(m.st, m.set)
 	diffs := diffSnapshots(m.set, s.pre, post)
